@@ -11,80 +11,104 @@ Require Import XV.SafeErrDefs XV.SafeErrModel XV.GenSafeErr XV.SafeErrInst.
 Import ListNotations.
 
 Definition var_eval (deps : nat -> list nat) (n v : nat) : gres :=
-  g_eval variable_guard_search variable_value_stored deps (S n) g_init v.
+  g_eval variable_guard_search variable_value_stored variable_dlimit deps (S n) g_init v.
 
 Definition attset_eval (deps : nat -> list nat) (n v : nat) : gres :=
-  g_eval attribute_set_guard_search attribute_set_value_stored deps (S n) g_init v.
+  g_eval attribute_set_guard_search attribute_set_value_stored None deps (S n) g_init v.
 
-(* --- circular definitions of top-level variables (VariablesStack::findXObject) ------------------ *)
+(* --- circular definitions of top-level variables (VariablesStack::findXObject), the tree at hand ---
+   variable_dlimit is None for the code without a limit on the nesting of lazy evaluations and Some L
+   for the code with 'if (m_guardStack.size() >= L) error' in front of the push; the statements of
+   this block hold for both and are instantiated with what the translator found. *)
 
 (* fuel = number of variables + 1 is always enough: the lazy evaluation terminates *)
 Theorem guard_terminates :
   forall n deps v, closed n deps -> v < n -> var_eval deps n v <> GFuel.
-Proof. exact (fun n deps v C H => guard_terminates_l n true deps C v H). Qed.
+Proof. exact (fun n deps v C H => guard_terminates_l n true variable_dlimit deps C v H). Qed.
 Print Assumptions guard_terminates.
 
-(* the circular-definition error is raised iff the referenced variable reaches a cycle *)
+(* a reference that reaches a cycle always ends in a reported error *)
+Theorem cycle_always_reported :
+  forall n deps v, closed n deps -> v < n -> reaches_cycle deps v ->
+    (exists s w, var_eval deps n v = GCirc s w) \/ (exists s w, var_eval deps n v = GDeep s w).
+Proof. exact (fun n deps v C H => cycle_is_error_l n true variable_dlimit deps C v H). Qed.
+Print Assumptions cycle_always_reported.
+
+(* when no chain of references from v is as long as the nesting limit (always, when there is none):
+   the circular-definition error is raised iff v reaches a cycle, and the evaluation succeeds iff every
+   dependency path from v ends *)
 Theorem guard_detects_every_cycle :
   forall n deps v, closed n deps -> v < n ->
-    ((exists s w, var_eval deps n v = GCirc s w) <-> reaches_cycle deps v).
-Proof. exact (fun n deps v C H => guard_detects_every_cycle_l n true deps C v H). Qed.
+    (forall L, variable_dlimit = Some L -> ~ deep deps L v) ->
+    ((exists s w, var_eval deps n v = GCirc s w) <-> reaches_cycle deps v) /\
+    ((exists s, var_eval deps n v = GOk s) <-> wf_from deps v).
+Proof. exact (fun n deps v C H => short_chains_unaffected_l n true variable_dlimit deps C v H). Qed.
 Print Assumptions guard_detects_every_cycle.
 
-(* ... and the variable the message names lies on a cycle that the referenced variable reaches *)
+(* the variable the circular-definition message names lies on a cycle that the referenced variable reaches *)
 Theorem guard_reports_a_variable_on_a_cycle :
   forall n deps v s w, closed n deps -> v < n -> var_eval deps n v = GCirc s w ->
     reach deps v w /\ on_cycle deps w.
-Proof. exact (fun n deps v s w C H => circ_sound n true deps C v H s w). Qed.
+Proof. exact (fun n deps v s w C H => circ_sound n true variable_dlimit deps C v H s w). Qed.
 Print Assumptions guard_reports_a_variable_on_a_cycle.
 
-(* success iff every dependency path from the variable ends *)
-Theorem guard_succeeds_iff_well_founded :
-  forall n deps v, closed n deps -> v < n ->
-    ((exists s, var_eval deps n v = GOk s) <-> wf_from deps v).
-Proof. exact (fun n deps v C H => guard_ok_iff_l n true deps C v H). Qed.
-Print Assumptions guard_succeeds_iff_well_founded.
+(* success only when every dependency path from the variable ends *)
+Theorem guard_success_sound :
+  forall n deps v s, closed n deps -> v < n -> var_eval deps n v = GOk s -> wf_from deps v.
+Proof. exact (fun n deps v s C H => ok_sound n true variable_dlimit deps C v H s). Qed.
+Print Assumptions guard_success_sound.
 
-(* the guard stack (and with it the native recursion) never gets deeper than the number of variables *)
+(* the nesting error is raised only when a chain of as many references as the limit exists below v: the
+   stack then holds exactly that many variables, a duplicate-free chain, and w is the next one *)
+Theorem nesting_error_sound :
+  forall n deps v s w, closed n deps -> v < n -> var_eval deps n v = GDeep s w ->
+    variable_dlimit = Some (length (g_guard s)) /\ reach deps v w /\ deep deps (length (g_guard s)) v
+    /\ NoDup (w :: g_guard s) /\ chain deps (w :: g_guard s).
+Proof. exact (fun n deps v s w C H => deep_sound n true variable_dlimit deps C v H s w). Qed.
+Print Assumptions nesting_error_sound.
+
+(* the guard stack (and with it the native recursion) never gets deeper than the number of variables,
+   nor than the limit when there is one *)
 Theorem guard_stack_bounded :
   forall n deps v, closed n deps -> v < n ->
     match var_eval deps n v with
-    | GOk s => g_hw s <= n
-    | GCirc s _ => g_hw s <= n /\ length (g_guard s) <= n
+    | GOk s => g_hw s <= n /\ within variable_dlimit (g_hw s)
+    | GCirc s _ => g_hw s <= n /\ length (g_guard s) <= n /\ within variable_dlimit (g_hw s)
+    | GDeep s _ => g_hw s <= n /\ within variable_dlimit (g_hw s)
     | GFuel => False
     end.
-Proof. exact (fun n deps v C H => guard_stack_bounded_l n true deps C v H). Qed.
+Proof. exact (fun n deps v C H => guard_stack_bounded_l n true variable_dlimit deps C v H). Qed.
 Print Assumptions guard_stack_bounded.
 
-(* after a successful evaluation the stack is empty again; at the throw it holds a duplicate-free
-   dependency path containing the reported variable, and reset() (which follows every
-   transformation) empties it *)
+(* after a successful evaluation the stack is empty again; at a throw it holds a duplicate-free
+   dependency path, and reset() (which follows every transformation) empties it *)
 Theorem guard_balanced :
   forall n deps v, closed n deps -> v < n ->
     match var_eval deps n v with
     | GOk s => g_guard s = []
     | GCirc s w => NoDup (g_guard s) /\ chain deps (g_guard s) /\ In w (g_guard s) /\ g_guard (g_reset s) = []
+    | GDeep s w => NoDup (g_guard s) /\ chain deps (g_guard s) /\ ~ In w (g_guard s) /\ g_guard (g_reset s) = []
     | GFuel => False
     end.
-Proof. exact (fun n deps v C H => guard_balanced_l n true deps C v H). Qed.
+Proof. exact (fun n deps v C H => guard_balanced_l n true variable_dlimit deps C v H). Qed.
 Print Assumptions guard_balanced.
 
 (* nested lazy evaluations: from any state the evaluation can be in, success restores the stack *)
 Theorem guard_balanced_from_any_state :
-  forall n deps s v f, closed n deps -> ginv n deps s -> v < n -> linked deps (g_guard s) v ->
+  forall n deps s v f, closed n deps -> ginv n variable_dlimit deps s -> v < n -> linked deps (g_guard s) v ->
     n + 1 <= f + length (g_guard s) ->
-    forall s', g_eval variable_guard_search variable_value_stored deps f s v = GOk s' -> g_guard s' = g_guard s.
-Proof. exact (fun n deps s v f => guard_balanced_any n true deps s v f). Qed.
+    forall s', g_eval variable_guard_search variable_value_stored variable_dlimit deps f s v = GOk s' -> g_guard s' = g_guard s.
+Proof. exact (fun n deps s v f => guard_balanced_any n true variable_dlimit deps s v f). Qed.
 Print Assumptions guard_balanced_from_any_state.
 
-(* --- the same for xsl:attribute-set (pushOnElementRecursionStack; nothing is stored) ------------- *)
+(* --- the same for xsl:attribute-set (pushOnElementRecursionStack; nothing stored, no limit) -------- *)
 
 Theorem attribute_set_guard_detects_every_cycle :
   forall n deps v, closed n deps -> v < n ->
     attset_eval deps n v <> GFuel /\
     ((exists s w, attset_eval deps n v = GCirc s w) <-> reaches_cycle deps v).
 Proof.
-  exact (fun n deps v C H => conj (guard_terminates_l n false deps C v H)
+  exact (fun n deps v C H => conj (guard_terminates_l n false None deps C v H)
                                   (guard_detects_every_cycle_l n false deps C v H)).
 Qed.
 Print Assumptions attribute_set_guard_detects_every_cycle.
@@ -94,6 +118,7 @@ Theorem attribute_set_guard_balanced :
     match attset_eval deps n v with
     | GOk s => g_guard s = [] /\ g_hw s <= n
     | GCirc s w => NoDup (g_guard s) /\ In w (g_guard s) /\ g_hw s <= n
+    | GDeep _ _ => False
     | GFuel => False
     end.
 Proof. exact attset_balanced_l. Qed.
@@ -104,24 +129,55 @@ Print Assumptions attribute_set_guard_balanced.
 
 Theorem top_only_guard_refuted :
   exists deps n v, closed n deps /\ v < n /\ reaches_cycle deps v /\
-    forall fuel, g_eval SearchTopOnly variable_value_stored deps fuel g_init v = GFuel.
+    forall fuel, g_eval SearchTopOnly variable_value_stored None deps fuel g_init v = GFuel.
 Proof. exact (top_only_refuted_l true). Qed.
 Print Assumptions top_only_guard_refuted.
 
-(* --- FINDING K-C03e-1: the depth of the native recursion is bounded by the number of variables and by
-       nothing else: no constant bounds it (a chain v0 -> v1 -> ... -> vn drives it to n + 1) -------- *)
+(* --- depth of the native recursion (findXObject -> getValue -> XPath::execute -> findXObject) ------- *)
 
+(* VARIANT WITHOUT a nesting limit (finding K-C03e-1): no constant bounds the depth - a chain
+   v0 -> v1 -> ... -> vB drives it to B + 1 ... *)
 Theorem native_recursion_constant_bound_refuted :
-  ~ exists B, forall n deps v s, closed n deps -> v < n -> var_eval deps n v = GOk s -> g_hw s <= B.
+  ~ exists B, forall n deps v s, closed n deps -> v < n ->
+      g_eval SearchWholeStack true None deps (S n) g_init v = GOk s -> g_hw s <= B.
 Proof. exact native_bound_refuted_l. Qed.
 Print Assumptions native_recursion_constant_bound_refuted.
 
-(* what does hold: guard_stack_bounded (depth <= number of variables), i.e. for stylesheets with at
-   most B top-level variables the depth is at most B *)
+(* ... what does hold there: the depth is at most the number of variables *)
 Theorem native_recursion_bound_partial :
-  forall B n deps v s, n <= B -> closed n deps -> v < n -> var_eval deps n v = GOk s -> g_hw s <= B.
+  forall B n deps v s, n <= B -> closed n deps -> v < n ->
+    g_eval SearchWholeStack true None deps (S n) g_init v = GOk s -> g_hw s <= B.
 Proof. exact native_bound_partial_l. Qed.
 Print Assumptions native_recursion_bound_partial.
+
+(* VARIANT WITH the nesting limit L (for every L): whatever the stylesheet, the recursion is never deeper
+   than L; the nesting error is raised exactly at depth L and only when L further references below v exist *)
+Theorem native_recursion_bounded :
+  forall L n deps v, closed n deps -> v < n ->
+    match g_eval SearchWholeStack true (Some L) deps (S n) g_init v with
+    | GOk s => g_hw s <= L
+    | GCirc s _ => g_hw s <= L
+    | GDeep s w => g_hw s <= L /\ length (g_guard s) = L /\ deep deps L v
+    | GFuel => False
+    end.
+Proof. exact (fun L n deps v C H => native_recursion_bounded_l L n true deps C v H). Qed.
+Print Assumptions native_recursion_bounded.
+
+(* ... and a stylesheet without a chain of L references is evaluated as if there were no limit *)
+Theorem nesting_limit_does_not_interfere :
+  forall L n deps v, closed n deps -> v < n -> ~ deep deps L v ->
+    ((exists s w, g_eval SearchWholeStack true (Some L) deps (S n) g_init v = GCirc s w) <-> reaches_cycle deps v) /\
+    ((exists s, g_eval SearchWholeStack true (Some L) deps (S n) g_init v = GOk s) <-> wf_from deps v).
+Proof.
+  exact (fun L n deps v C H D => short_chains_unaffected_l n true (Some L) deps C v H
+           (fun L' E => match E in (_ = o) return (match o with Some k => ~ deep deps k v | None => True end) with eq_refl => D end)).
+Qed.
+Print Assumptions nesting_limit_does_not_interfere.
+
+(* THE TREE AT HAND: the bounded statement when the translator found the limit, the refutation otherwise *)
+Theorem native_recursion_this_tree : native_recursion_statement variable_dlimit.
+Proof. exact (native_recursion_this_tree_l variable_dlimit). Qed.
+Print Assumptions native_recursion_this_tree.
 
 (* --- template / for-each nesting limit (pushCurrentTemplate) ------------------------------------- *)
 
